@@ -2,8 +2,10 @@
 Ledger correspondences: callback objects of callback lists (flavour `ledger` of the cl domain, with
 removal during invocation, copies, moves, swaps, destroy) and event payloads of queues (flavour
 `ledger` of the q domain: recycled slots, clearEvents, takeEvent, queue destruction)."""
+import exn_domain
 import q_domain
 import vlib
+from props import C09 as c09
 from props import _cl_common as cc
 from props import _q_common as qc
 
@@ -17,7 +19,8 @@ def only_ledger(line):
 
 def run(ctx):
     cc.run(ctx, FILES, ['ledger', 'ledger', 'restructure'], n_quick=1500, n_thorough=60000, keep=only_ledger,
-           variants_quick=('multi_functor', 'single_stdfunction'), what='callback objects held by CallbackList')
+           variants_quick=('multi_functor', 'single_stdfunction'), what='callback objects held by CallbackList',
+           leaves=('callbacklist', 'exn', 'ctors', 'queue'))
     bins = qc.build_variants(ctx, ['ref_multi'])
     cases = qc.corpus_cases() + [q_domain.Gen(ctx.rng.fork(), 'ledger').gen() for _ in range(ctx.budget(1200, 40000))]
     st, model, texts, usable = q_domain.correspond(ctx, bins, cases, keep=only_ledger, what='event payloads held by EventQueue')
@@ -25,10 +28,27 @@ def run(ctx):
     ctx.coverage['queue_payload_disagreements'] = st['disagreements']
     ctx.coverage['evaluations'] += st['compared']
     ctx.coverage['rule'] += '; plus queue `ledger` cases (payload live counts at quiescent points, after clearEvents/takeEvent and after the queue is destroyed) on the const-reference prototype harness'
+    # exceptions: the operations that copy callbacks or payloads into the library, failing at every fault point
+    # (C09's fault-plan machinery: harness/exn.cpp + extracted fault profiles; `live` lines are the ledger, LSan at exit)
+    proof_ok = not ctx.coverage.get('proof_errors')
+    ebins = c09.build_variants(ctx, ['gxx17_map'])
+    kinds = ['clcopy', 'classign', 'cladd', 'hcopy', 'hassign', 'dcopy', 'enqueue', 'oenqueue']
+    ecases = []
+    for j in range(ctx.budget(16, 400)):
+        _, fam = exn_domain.plan_family(ctx.rng.fork(), kind=kinds[j % len(kinds)])
+        ecases += fam
+    est, _, _, _, _ = exn_domain.correspond(ctx, 'gxx17_map', ebins['gxx17_map'], ecases, oracle='code' if proof_ok else 'spec')
+    ctx.coverage['fault_plan_cases_compared'] = est['compared']
+    ctx.coverage['fault_plan_disagreements'] = est['disagreements']
+    ctx.coverage['fault_points_fired_in_real_runs'] = est['fault_points_exercised']
+    ctx.coverage['evaluations'] += est['compared']
+    ctx.coverage['rule'] += '; plus fault plans (tools/exn_domain.py) for %s: the k-th allocation / user copy fails, k = 1..14, the live-object ledger and the containers must be as before' % kinds
 
 
 def replay(ctx, path):
     text = open(path).read()
+    if 'plan ' in text or 'fault ' in text:
+        return exn_domain.replay_file(ctx, path, c09.build_variants(ctx, ['gxx17_map']))
     if 'ordered ' in text:
         return qc.replay(ctx, path, keep=only_ledger)
     return cc.replay(ctx, path, keep=only_ledger)
